@@ -29,7 +29,7 @@ let dump (j : journal) (maxc : int) : string =
 
 let sentry_of c t i ts p = { s_cluster = n_of_dec c; s_term = n_of_dec t; s_index = n_of_dec i; s_ts = n_of_dec ts; s_payload = n_of_dec p }
 
-let run_a (live : bool) (ops : string list) : string =
+let run_a ?(multi = false) (live : bool) (ops : string list) : string =
   let nd = ref init_node in
   let maxc = ref 0 in
   let obs = ref [] in
@@ -41,7 +41,11 @@ let run_a (live : bool) (ops : string list) : string =
   let focus = ref None in   (* live cases: the snapshot the last request was about, asked through GetApplySnapStatus *)
   let observe r =
     let fourth =
-      if not live then snaps_str !nd.n_snaps
+      if multi then
+        (* three replicas apply the same committed entries: the followers are where the leader is *)
+        let one = Printf.sprintf "%s,%d" (synced_str !nd.n_cur.r_synced) (List.length !nd.n_cur.r_journal) in
+        one ^ "|" ^ one
+      else if not live then snaps_str !nd.n_snaps
       else match !focus with
         | Some (c, t, i) when not !restarted -> "g" ^ dec_of_n (apply_status_rsp !nd c t i)
         | _ -> "-" in
@@ -107,12 +111,13 @@ let run_a (live : bool) (ops : string list) : string =
       push ("SRC " ^ dump (source_state (n_of_dec c) s).r_journal mc)
     | _ -> push "badop") ops;
   push ("END " ^ dump !nd.n_cur.r_journal !maxc);
+  if multi then push "REPL same";
   String.concat " / " (List.rev !obs)
 
 let () =
   read_lines stdin (fun line ->
     match split_on '\t' line with
-    | id :: (("A" | "B") as kind) :: _eng :: _cls :: ops :: _ ->
+    | id :: (("A" | "B" | "M") as kind) :: _eng :: _cls :: ops :: _ ->
       let ops = List.filter (fun s -> s <> "") (split_on ' ' ops) in
-      Printf.printf "%s\t%s\n" id (run_a (kind = "B") ops)
+      Printf.printf "%s\t%s\n" id (run_a ~multi:(kind = "M") (kind = "B") ops)
     | _ -> ())
